@@ -24,6 +24,7 @@ package main
 
 import (
 	"context"
+	"database/sql"
 	"errors"
 	"fmt"
 	"io"
@@ -89,10 +90,64 @@ func cleanupSqlite() {
 	}
 }
 
-// newDatastore returns a fresh, empty datastore of the given kind and its disposer.
+// templateImage returns the bytes of the migrated template database.
+var (
+	imgOnce sync.Once
+	img     []byte
+)
+
+func templateImage() []byte {
+	imgOnce.Do(func() {
+		tpl, err := sqliteTemplate()
+		if err != nil {
+			panic(err)
+		}
+		img, err = os.ReadFile(tpl)
+		if err != nil || len(img) < 4096 {
+			panic(fmt.Sprintf("sqlite template: %v (%d bytes)", err, len(img)))
+		}
+	})
+	return img
+}
+
+// newDatastore returns a fresh, empty datastore of the given kind and its disposer:
+//
+//	m  memory backend
+//	s  the real sqlite Datastore on a private in-memory copy (sqlite3_deserialize) of the migrated template, ONE connection (storage-level
+//	   histories are sequential and drain every iterator before the next call) — no file system traffic
+//	f  the real sqlite Datastore on a copy of the migrated template file (WAL, connection pool) for the in-process server
 func newDatastore(kind string) (storage.OpenFGADatastore, func()) {
-	if kind == "m" {
+	switch kind {
+	case "m":
 		ds := memory.New()
+		return ds, ds.Close
+	case "s":
+		db, err := sql.Open("sqlite", "file::memory:?_pragma=busy_timeout(5000)&_txlock=immediate")
+		if err != nil {
+			panic(err)
+		}
+		db.SetMaxOpenConns(1)
+		db.SetMaxIdleConns(1)
+		db.SetConnMaxLifetime(0)
+		conn, err := db.Conn(context.Background())
+		if err != nil {
+			panic(err)
+		}
+		err = conn.Raw(func(dc any) error {
+			d, ok := dc.(interface{ Deserialize([]byte) error })
+			if !ok {
+				return fmt.Errorf("sqlite driver connection has no Deserialize")
+			}
+			return d.Deserialize(templateImage())
+		})
+		if err != nil {
+			panic(err)
+		}
+		_ = conn.Close() // back to the pool: the single connection (and with it the database) lives until ds.Close()
+		ds, err := sqlite.NewWithDB(db, sqlcommon.NewConfig())
+		if err != nil {
+			panic(err)
+		}
 		return ds, ds.Close
 	}
 	tpl, err := sqliteTemplate()
@@ -114,7 +169,7 @@ func newDatastore(kind string) (storage.OpenFGADatastore, func()) {
 	}
 	in.Close()
 	out.Close()
-	ds, err := sqlite.New(fmt.Sprintf("file:%s?_pragma=journal_mode(OFF)&_pragma=busy_timeout(5000)&_pragma=synchronous(OFF)", p), sqlcommon.NewConfig())
+	ds, err := sqlite.New(fmt.Sprintf("file:%s?_pragma=journal_mode(WAL)&_pragma=busy_timeout(5000)&_pragma=synchronous(OFF)", p), sqlcommon.NewConfig())
 	if err != nil {
 		panic(err)
 	}
@@ -150,8 +205,7 @@ func condFilter(c *hx.Rand) string {
 	}
 }
 
-func genStore(c *hx.Rand, st *hx.Stats) string {
-	backend := hx.Pick(c, []string{"m", "s"})
+func genStore(c *hx.Rand, st *hx.Stats, backend string) string {
 	names := hx.Pick(c, []string{"0,0,1", "0,0,0", "0,1,2", "1,0,0"})
 	var ops []string
 	order := []int{0, 1, 2}
@@ -162,7 +216,11 @@ func genStore(c *hx.Rand, st *hx.Stats) string {
 	// a pool of keys written to SEVERAL stores (same key, different payload) plus a few per-store ones
 	type tup struct{ o, r, u string }
 	var pool []tup
-	for k := 0; k < 7; k++ {
+	npool, nbase := 7, 14
+	if backend == "s" {
+		npool, nbase = 5, 9 // a sqlite write costs ~1.5 ms and every case runs on four databases
+	}
+	for k := 0; k < npool; k++ {
 		o := hx.Pick(c, stObjs)
 		pool = append(pool, tup{o, hx.Pick(c, stRels[fga.TypeOf(o)]), hx.Pick(c, stUsers)})
 	}
@@ -173,7 +231,7 @@ func genStore(c *hx.Rand, st *hx.Stats) string {
 			}
 		}
 	}
-	nops := 14 + c.Intn(14)
+	nops := nbase + c.Intn(14)
 	deleted := map[int]bool{}
 	read := func(s int) string {
 		t := hx.Pick(c, pool)
